@@ -159,3 +159,59 @@ theorem enter_fragmentDef_in_walk (s : Schema) (d : Document) (hq : s.queryType.
   simp [traverseDocument, enter_fragmentDef_mem_definitions]
 
 end Gql
+
+namespace Gql
+
+/-- the operation carried by an `enter operation` callback -/
+def enterOp? : Ev → Option Operation
+  | .enter (.operation o) => some o
+  | _ => none
+
+theorem Inner.filterMap_enterOp {l : List Ev} (h : Inner l) : l.filterMap enterOp? = [] := by
+  rw [List.filterMap_eq_nil_iff]
+  intro e he
+  have := h e he
+  cases e with
+  | enter n => cases n <;> simp [Ev.node, Node.isDefinitionLevel] at this <;> rfl
+  | leave n => rfl
+
+theorem filterMap_enterOp_definitions :
+    ∀ ds : List Definition, (traverseDefinitions ds).filterMap enterOp? = Document.operations ds
+  | [] => by simp [traverseDefinitions, Document.operations]
+  | .frag f :: ds => by
+      simp [traverseDefinitions, traverseDefinition, List.filterMap_append, List.filterMap_cons, enterOp?,
+        (inner_directives f.dirs).filterMap_enterOp, (inner_selectionSet f.sel).filterMap_enterOp,
+        filterMap_enterOp_definitions ds, Document.operations]
+  | .op o :: ds => by
+      simp [traverseDefinitions, traverseDefinition, List.filterMap_append, List.filterMap_cons, enterOp?,
+        (inner_directives o.dirs).filterMap_enterOp, (inner_varDefs o.vars).filterMap_enterOp,
+        (inner_selectionSet o.sel).filterMap_enterOp, filterMap_enterOp_definitions ds, Document.operations]
+
+/-- the operations are entered in document order, each once -/
+theorem filterMap_enterOp_document (d : Document) : (traverseDocument d).filterMap enterOp? = d.operations := by
+  simp [traverseDocument, List.filterMap_append, List.filterMap_cons, enterOp?, filterMap_enterOp_definitions]
+
+theorem Inner.not_enter_doc {l : List Ev} (h : Inner l) (d' : Document) : Ev.enter (.document d') ∉ l :=
+  fun hm => by have := h _ hm; simp [Ev.node, Node.isDefinitionLevel] at this
+
+theorem not_enter_document_definitions (d' : Document) :
+    ∀ ds : List Definition, Ev.enter (.document d') ∉ traverseDefinitions ds
+  | [] => by simp [traverseDefinitions]
+  | .frag f :: ds => by
+      simp [traverseDefinitions, traverseDefinition, not_enter_document_definitions d' ds,
+        (inner_directives f.dirs).not_enter_doc, (inner_selectionSet f.sel).not_enter_doc]
+  | .op o :: ds => by
+      simp [traverseDefinitions, traverseDefinition, not_enter_document_definitions d' ds,
+        (inner_directives o.dirs).not_enter_doc, (inner_varDefs o.vars).not_enter_doc,
+        (inner_selectionSet o.sel).not_enter_doc]
+
+/-- the only `enter document` callback carries the document itself -/
+theorem enter_document_in_walk (s : Schema) (d : Document) (hq : s.queryType.isSome = true) (d' : Document) :
+    (∃ env, (Ev.enter (.document d'), env) ∈ walkOf s d) ↔ d' = d := by
+  have h := walkOf_events s d hq
+  have : (∃ env, (Ev.enter (.document d'), env) ∈ walkOf s d) ↔ Ev.enter (.document d') ∈ (walkOf s d).map Prod.fst := by
+    simp [List.mem_map]
+  rw [this, h]
+  simp [traverseDocument, not_enter_document_definitions d' d]
+
+end Gql
